@@ -145,7 +145,7 @@ Definition wf_parse_b (r : Z * pctx) : bool :=
           4 model<>spec as written (the model itself violates the property on this input)
           5 a passed frame was modified *)
 Fixpoint check_steps (P : param) (dae0 : N) (steps : list obs_step) (st : kstate) (tstrict tbuilt : ftab) (n : N)
-  : list (N * N) :=
+         (mfail : bool) : list (N * N) :=
   match steps with
   | [] => []
   | s :: rest =>
@@ -189,17 +189,20 @@ Fixpoint check_steps (P : param) (dae0 : N) (steps : list obs_step) (st : kstate
       let ok_untouched :=
         if forward_hook (os_hook s) && negb (os_act s =? TC_ACT_SHOT) && negb (os_act s =? TC_ACT_REDIRECT)
         then negb (os_changed s) else true in
-      let errs := (if ok_model then [] else [(n, 1)]) ++ (if ok_spec then [] else [(n, 2)]) ++
-                  (if ok_thm then [] else [(n, 3)]) ++ (if ok_mspec then [] else [(n, 4)]) ++
-                  (if ok_untouched then [] else [(n, 5)]) in
-      match errs with
-      | [] => check_steps P dae0 rest (h_st h) tstrict' tbuilt' (n + 1)
-      | _ => errs
+      (* model-related disagreements (1,3,4) are reported once and the walk goes on: the comparison of the
+         implementation with the specification does not depend on the model *)
+      let merrs := if mfail then [] else
+                     (if ok_model then [] else [(n, 1)]) ++ (if ok_thm then [] else [(n, 3)]) ++ (if ok_mspec then [] else [(n, 4)]) in
+      let serrs := (if ok_spec then [] else [(n, 2)]) ++ (if ok_untouched then [] else [(n, 5)]) in
+      match serrs with
+      | [] => merrs ++ check_steps P dae0 rest (h_st h) tstrict' tbuilt' (n + 1)
+                                   (mfail || negb (ok_model && ok_thm && ok_mspec))
+      | _ => merrs ++ serrs
       end
   end.
 
 Definition check_case (c : obs_case) : list (N * N) :=
-  check_steps (oc_param c) (oc_dae0 c) (oc_steps c) (mk_ks [] []) [] [] 0.
+  check_steps (oc_param c) (oc_dae0 c) (oc_steps c) (mk_ks [] []) [] [] 0 false.
 
 (* branch signature of a sequence (for the evidence): per step hook, packet class, parse path, verdict kind,
    whether the rule program was consulted; folded into one number *)
